@@ -681,6 +681,8 @@ def run(ctx):
 PROLOGUE = """typedef __builtin_va_list va_list;
 struct S { int m; long n; char c[3]; };
 struct B { int bf : 3; unsigned ub : 5; int : 0; long lf : 33; };
+union U { int i; double d; char c; };
+struct O { struct S in; union U u; short h; };
 _Noreturn void die(void);
 int vx(int, ...);
 /*HELPERS*/
@@ -688,6 +690,7 @@ int vx(int, ...);
 int fn(int p, long lp, double dp, struct S sp, int *pp) {
 	int i = p, j = 0; unsigned u = p; char c = p; short sh = p; long l = lp; double d = dp; float fl = dp;
 	int a[4] = {0}; struct S s = sp, s2 = sp; struct B b = {0}; int (*fp)(int) = fi; int n = (p & 3) + 1; int vla[n];
+	struct O o = gso(p); union U un = {p}; static int st; _Alignas(32) int al = p; char str[8] = "ab";
 	vla[0] = 0;
 	/*BODY*/
 	return i;
@@ -697,8 +700,12 @@ int fn(int p, long lp, double dp, struct S sp, int *pp) {
 HELPER_DEFS = """int fi(int a) { return a + 1; }
 double fd(double a) { return a * 2; }
 struct S gs(int a) { struct S r = {a, a + 1, {1, 2, 3}}; return r; }
-int vf(int n, ...) { va_list ap; int t = 0; __builtin_va_start(ap, n); while (n-- > 0) t += __builtin_va_arg(ap, int); t += (int)__builtin_va_arg(ap, double); __builtin_va_end(ap); return t; }"""
-HELPER_DECLS = "int fi(int); double fd(double); struct S gs(int); int vf(int, ...);"
+int vf(int n, ...) { va_list ap; int t = 0; __builtin_va_start(ap, n); while (n-- > 0) t += __builtin_va_arg(ap, int); t += (int)__builtin_va_arg(ap, double); __builtin_va_end(ap); return t; }
+int vf2(int n, ...) { va_list ap; long t = n; __builtin_va_start(ap, n); t += __builtin_va_arg(ap, long); t += *__builtin_va_arg(ap, char *); t += (long)__builtin_va_arg(ap, double); __builtin_va_end(ap); return (int)t; }
+int fs(struct S a) { return a.m + a.c[1]; }
+struct O gso(int a) { struct O r = {{a, 2, {1, 2, 3}}, {a}, 3}; return r; }
+int fo(struct O a) { return a.in.m + a.h; }"""
+HELPER_DECLS = "int fi(int); double fd(double); struct S gs(int); int vf(int, ...); int vf2(int, ...); int fs(struct S); struct O gso(int); int fo(struct O);"
 MAIN_DEF = "int main(void) { int z = 0; struct S s = gs(1); return fn(1, 2, 3.0, s, &z) + vf(2, 1, 2, 3.0); }"
 
 
